@@ -8,6 +8,13 @@ Open Scope Z_scope.
 
 (* ------------------------------------------------------------------ *)
 (* list plumbing                                                        *)
+Lemma last_cons_default {A} (l : list A) : forall a d, last (a :: l) d = last l a.
+Proof.
+  induction l as [|b t IH]; intros a d; [reflexivity|].
+  change (last (a :: b :: t) d) with (last (b :: t) d).
+  rewrite (IH b d), (IH b a). reflexivity.
+Qed.
+
 Lemma zlen_cons {A} (a : A) l : zlen (a :: l) = 1 + zlen l.
 Proof. unfold zlen. cbn [length]. lia. Qed.
 Lemma zlen_nonneg {A} (l : list A) : 0 <= zlen l.
@@ -373,20 +380,28 @@ Section ChoiceProofs.
   Lemma rc_init_inv eps64 epsp items p rc :
     rc_init N eps64 epsp items p = Ok rc ->
     zlen p = zlen items /\ rc_items rc = items
-    /\ exists L, py_get (ncumsum N p) (-1) = Ok L
-                 /\ rc_cdf rc = map (fun x => ndiv N x L) (ncumsum N p).
+    /\ (exists L, py_get (ncumsum N p) (-1) = Ok L
+                 /\ rc_cdf rc = map (fun x => ndiv N x L) (ncumsum N p))
+    /\ Forall (nonnegT N) p
+    /\ nltb N (nmax N (nsqrt N eps64) (nsqrt N epsp)) (nabs N (nsub N (nsum N p) one)) = false.
   Proof.
     unfold rc_init, assert_probs, cdf_of.
     rewrite K_rc_size_bad.
     destruct (zlen p =? zlen items) eqn:E; cbn [negb]; [|discriminate].
     apply Z.eqb_eq in E.
-    destruct (existsb (rc_neg N) p); [discriminate|].
-    destruct (rc_sum_bad N _ _); [discriminate|]. cbn [bind].
+    destruct (forallb (rc_nonneg N) p) eqn:EF; cbn [negb]; [|discriminate].
+    rewrite K_rc_sum_bad, K_rc_atol.
+    destruct (nltb N (nmax N (nsqrt N eps64) (nsqrt N epsp)) (nabs N (nsub N (nsum N p) one))) eqn:ES;
+      [discriminate|]. cbn [bind].
     destruct (K_rc_norm N zero zero) as [_ Hlast]. rewrite Hlast.
     destruct (py_get (ncumsum N p) (-1)) as [L|] eqn:EL; [|discriminate].
     cbn [bind]. intros H. inversion H. subst rc. cbn.
-    split; [exact E|]. split; [reflexivity|]. exists L. split; [reflexivity|].
-    apply map_ext. intros x. destruct (K_rc_norm N x L) as [Hn _]. exact Hn.
+    split; [exact E|]. split; [reflexivity|]. split.
+    - exists L. split; [reflexivity|].
+      apply map_ext. intros x. destruct (K_rc_norm N x L) as [Hn _]. exact Hn.
+    - split; [|reflexivity].
+      rewrite forallb_forall in EF. apply Forall_forall. intros x Hx.
+      specialize (EF x Hx). rewrite K_rc_nonneg in EF. exact EF.
   Qed.
 
   Theorem rc_call_correct eps64 epsp items p rc u (perm : list nat) junk :
@@ -406,7 +421,7 @@ Section ChoiceProofs.
   Proof.
     intros Hp Hinit HL Hu HP.
     rewrite (rc_call_unsort rc u perm junk HP).
-    destruct (rc_init_inv _ _ _ _ _ Hinit) as [Hlen [Hit [L [HLget Hcdf]]]].
+    destruct (rc_init_inv _ _ _ _ _ Hinit) as [Hlen [Hit [[L [HLget Hcdf]] _]]].
     specialize (HL L HLget). rewrite Hit, Hcdf. clear HP perm junk.
     induction u as [|ui r IH].
     - exists []. split; [reflexivity|constructor].
@@ -429,11 +444,101 @@ Section ChoiceProofs.
         rewrite ncumsum_length.
         lia.
   Qed.
+
+  (* ---------------------------------------------------------------- *)
+  (* every vector the constructor accepts has a positive last cumulative
+     sum: the premises "p >= 0" and "positive sum" follow from acceptance   *)
+  Hypothesis le_zero_refl : le zero zero.
+  Hypothesis tot0 : forall a, le zero a -> nltb N zero a = false -> le a zero.
+  Hypothesis add_nonneg_l : forall a x, le zero a -> le zero x -> le x (nadd N a x).
+  Hypothesis abs_sub : forall s, le s zero -> le one (nabs N (nsub N s one)).
+  Hypothesis lt_le_trans : forall a b c, lt a b -> le b c -> lt a c.
+
+  Lemma csum_last_nonpos l : forall acc,
+    le zero acc -> Forall (nonnegT N) l -> le (last (csum acc l) acc) zero ->
+    le acc zero /\ Forall (fun x => le x zero) l.
+  Proof.
+    induction l as [|x r IH]; intros acc Ha Hl HL; cbn [cumsum_fromT last] in HL.
+    - split; [exact HL | constructor].
+    - inversion Hl as [|? ? Hx Hr]. subst. unfold nonnegT in Hx.
+      set (a := nadd N acc x) in *.
+      pose proof (add_nonneg acc x Ha Hx) as H1. fold a in H1.
+      pose proof (le_trans _ _ _ Ha H1) as H2.
+      assert (HL' : le (last (csum a r) a) zero) by (rewrite <- last_cons_default with (d := acc); exact HL).
+      destruct (IH a H2 Hr HL') as [Ha0 Hr0].
+      split; [eapply le_trans; [exact H1 | exact Ha0]|].
+      constructor; [|exact Hr0].
+      exact (le_trans _ _ _ (add_nonneg_l acc x Ha Hx) Ha0).
+  Qed.
+
+  Lemma nsum_nonpos l : forall acc,
+    le zero acc -> le acc zero ->
+    Forall (fun x => le zero x /\ le x zero) l -> le (fold_left (nadd N) l acc) zero.
+  Proof.
+    induction l as [|x r IH]; intros acc H0 H1 Hl; cbn [fold_left]; [exact H1|].
+    inversion Hl as [|? ? [Hx0 Hx1] Hr]. subst.
+    apply IH; [|  | exact Hr].
+    - eapply le_trans; [exact H0 | apply add_nonneg; assumption].
+    - eapply le_trans; [apply add_nonpos; assumption | exact H1].
+  Qed.
+
+  Lemma accepted_positive eps64 epsp items p rc :
+    nltb N (nmax N (nsqrt N eps64) (nsqrt N epsp)) one = true ->
+    rc_init N eps64 epsp items p = Ok rc ->
+    forall L, py_get (ncumsum N p) (-1) = Ok L -> lt zero L.
+  Proof.
+    intros Htol Hinit L HL.
+    destruct (rc_init_inv _ _ _ _ _ Hinit) as [_ [_ [_ [Hp Hsum]]]].
+    destruct (nltb N zero L) eqn:E; [reflexivity|]. exfalso.
+    destruct p as [|x0 r]; [discriminate|].
+    inversion Hp as [|? ? Hx0 Hr]. subst. unfold nonnegT in Hx0.
+    destruct (py_get_last _ _ HL) as [l' Hl'].
+    assert (HlastL : last (ncumsum N (x0 :: r)) x0 = L) by (rewrite Hl'; apply last_last).
+    cbn [ncumsum] in HlastL.
+    assert (HL0 : le zero L).
+    { assert (Hin : In L (x0 :: csum x0 r)).
+      { change (x0 :: csum x0 r) with (ncumsum N (x0 :: r)). rewrite Hl'. apply in_or_app. right. left. reflexivity. }
+      destruct Hin as [<-|Hin]; [exact Hx0|].
+      pose proof (csum_ge r x0 Hx0 Hr) as G. rewrite Forall_forall in G. apply (G L Hin). }
+    pose proof (tot0 L HL0 E) as HLle.
+    rewrite last_cons_default in HlastL.
+    assert (Hall : le x0 zero /\ Forall (fun x => le x zero) r).
+    { apply csum_last_nonpos; [exact Hx0 | exact Hr | rewrite HlastL; exact HLle]. }
+    destruct Hall as [Hx0le Hrle].
+    assert (Hs : le (nsum N (x0 :: r)) zero).
+    { unfold nsum. apply nsum_nonpos; [exact le_zero_refl | exact le_zero_refl|].
+      constructor; [split; assumption|].
+      rewrite Forall_forall in *. intros y Hy. split; [apply Hr | apply Hrle]; exact Hy. }
+    pose proof (lt_le_trans _ _ _ Htol (abs_sub _ Hs)) as Hbad. congruence.
+  Qed.
+
+  (* RandomChoice for EVERY probability vector the constructor accepts
+     (non-negative entries, sum within the tolerance of 1 - below or above -,
+     zeros anywhere incl. trailing): no premise on p beyond acceptance *)
+  Theorem rc_call_accepted eps64 epsp items p rc u (perm : list nat) junk :
+    nltb N (nmax N (nsqrt N eps64) (nsqrt N epsp)) one = true ->
+    rc_init N eps64 epsp items p = Ok rc ->
+    Forall (unit_interval N) u ->
+    Permutation perm (seq 0 (length u)) ->
+    exists out,
+      rc_call N rc u (map Z.of_nat perm) junk = Ok out
+      /\ Forall2 (fun ui it =>
+            let k := Z.to_nat (ssr (rc_cdf rc) ui) in
+            (k < length p)%nat
+            /\ nth_error items k = Some it
+            /\ (exists x, nth_error p k = Some x /\ posT N x)
+            /\ inverse_cdf N (rc_cdf rc) ui k) u out.
+  Proof.
+    intros Htol Hinit Hu HP.
+    destruct (rc_init_inv _ _ _ _ _ Hinit) as [_ [_ [_ [Hp _]]]].
+    apply (rc_call_correct eps64 epsp items p rc u perm junk Hp Hinit); try assumption.
+    apply (accepted_positive eps64 epsp items p rc Htol Hinit).
+  Qed.
 End ChoiceProofs.
 
 (* ------------------------------------------------------------------ *)
 (* the rationals satisfy the eight laws: a closed instance              *)
-From Coq Require Import QArith Lqa.
+From Coq Require Import QArith Qabs Lqa.
 
 Lemma Qltb_true a b : Qltb a b = true <-> (a < b)%Q.
 Proof.
@@ -480,6 +585,29 @@ Lemma Q_pos : forall a : Q,
   nltb QNum (nzero QNum) a = true.
 Proof. cbn. unfold Qltb. intros a _ H. rewrite H. reflexivity. Qed.
 
+Lemma Q_le_zero_refl : nleb QNum (nzero QNum) (nzero QNum) = true.
+Proof. reflexivity. Qed.
+Lemma Q_tot0 : forall a : Q, nleb QNum (nzero QNum) a = true -> nltb QNum (nzero QNum) a = false ->
+  nleb QNum a (nzero QNum) = true.
+Proof. cbn. unfold Qltb. intros a _ H. apply negb_false_iff in H. exact H. Qed.
+Lemma Q_add_nonneg_l : forall a x : Q,
+  nleb QNum (nzero QNum) a = true -> nleb QNum (nzero QNum) x = true ->
+  nleb QNum x (nadd QNum a x) = true.
+Proof. cbn. intros a x H1 H2. apply Qle_bool_iff in H1, H2. apply Qle_bool_iff. lra. Qed.
+Lemma Q_abs_sub : forall s : Q, nleb QNum s (nzero QNum) = true ->
+  nleb QNum (none QNum) (nabs QNum (nsub QNum s (none QNum))) = true.
+Proof.
+  cbn. intros s H. apply Qle_bool_iff in H. apply Qle_bool_iff.
+  apply Qle_trans with (y := (- (s - 1))%Q); [lra|].
+  rewrite <- (Qabs_opp (s - 1)). apply Qle_Qabs.
+Qed.
+Lemma Q_lt_le_trans : forall a b c : Q, nltb QNum a b = true -> nleb QNum b c = true -> nltb QNum a c = true.
+Proof. cbn. intros a b c H1 H2. apply Qltb_true in H1. apply Qle_bool_iff in H2. apply Qltb_true. lra. Qed.
+
+Definition rc_call_accepted_Q :=
+  rc_call_accepted QNum Q_le_trans Q_lt_not_le Q_add_nonneg Q_add_nonpos
+                   Q_div_mono Q_div_self Q_div_zero Q_pos
+                   Q_le_zero_refl Q_tot0 Q_add_nonneg_l Q_abs_sub Q_lt_le_trans.
 Definition rc_call_correct_Q :=
   rc_call_correct QNum Q_le_trans Q_lt_not_le Q_add_nonneg Q_add_nonpos
                   Q_div_mono Q_div_self Q_div_zero Q_pos.
